@@ -504,6 +504,45 @@ fn run_history(ctx: &Ctx, model: &mut Model, rep: &mut Report, seed: u64, steps:
     w.reopen(rep);
 }
 
+/// ALTER TABLE .. DROP COLUMN / ADD COLUMN on a table of more than 10 000 rows (the row migration works
+/// in batches): afterwards, and after a reopen, every row must still be readable with the remaining
+/// values.  Engine-only oracle (expected rows computed here).
+fn big_table_alter_scenario(ctx: &Ctx, rep: &mut Report) {
+    use crate::sqlgen::{Dbh, Out};
+    let case = "big table (10 050 rows): DROP COLUMN middle, verify, reopen, verify".to_string();
+    rep.case(Some(&case));
+    rep.count("big_table_alter_scenarios");
+    let mut db = Dbh::create(ctx, "c21-big");
+    if matches!(db.exec("CREATE TABLE t (id BIGINT PRIMARY KEY, a BIGINT, b TEXT, c BIGINT)"), Out::Err(_) | Out::Panic(_)) { return; }
+    let n = 10_050i64;
+    for chunk in (1..=n).collect::<Vec<_>>().chunks(500) {
+        let rows: Vec<String> = chunk.iter().map(|i| format!("({i}, {}, 'v{i}', {})", i * 2, i % 97)).collect();
+        if matches!(db.exec(&format!("INSERT INTO t VALUES {}", rows.join(", "))), Out::Err(_) | Out::Panic(_)) { rep.count("big_table_alter_setup_failed"); return; }
+    }
+    let verify = |db: &Dbh, when: &str, rep: &mut Report| -> bool {
+        match db.exec("SELECT * FROM t") {
+            Out::Rows(rows) => {
+                let mut got: Vec<(i64, String, i64)> = rows.iter().filter_map(|r| Some((r.get(0)?.strip_prefix('I')?.parse().ok()?, r.get(1)?.clone(), r.get(2)?.strip_prefix('I')?.parse().ok()?))).collect();
+                got.sort();
+                let bad = got.len() != n as usize || got.iter().enumerate().any(|(k, (id, _b, c))| *id != k as i64 + 1 || *c != (k as i64 + 1) % 97);
+                if bad {
+                    rep.oracle_fail(case.clone(), format!("{when}: SELECT * returns {} well-formed rows of {} (first ids {:?})", got.len(), n, got.iter().take(3).map(|x| x.0).collect::<Vec<_>>()), format!("ddl:drop_column_middle:big-table:{}:rows", if when.contains("reopen") { "yes" } else { "no" }));
+                }
+                !bad
+            }
+            o => { rep.oracle_fail(case.clone(), format!("{when}: SELECT * FROM t fails: {}", match o { Out::Err(e) => e, Out::Panic(p) => format!("panic {p}"), _ => "?".into() }.chars().take(200).collect::<String>()), format!("ddl:drop_column_middle:big-table:{}:select-error", if when.contains("reopen") { "yes" } else { "no" })); false }
+        }
+    };
+    match db.exec("ALTER TABLE t DROP COLUMN a") {
+        Out::Err(e) => { rep.oracle_fail(case.clone(), format!("ALTER TABLE t DROP COLUMN a on 10 050 rows: {e}"), "ddl:drop_column_middle:big-table:no:outcome-err".into()); return; }
+        Out::Panic(p) => { rep.oracle_fail(case.clone(), format!("ALTER TABLE t DROP COLUMN a on 10 050 rows: panic {p}"), "ddl:drop_column_middle:big-table:no:outcome-panic".into()); return; }
+        _ => {}
+    }
+    if !verify(&db, "after DROP COLUMN", rep) { return; }
+    if let Err(e) = db.reopen() { rep.oracle_fail(case.clone(), format!("reopen: {e}"), "ddl:drop_column_middle:big-table:yes:reopen-failed".into()); return; }
+    verify(&db, "after DROP COLUMN and reopen", rep);
+}
+
 pub fn run(ctx: &Ctx) -> Report {
     let mut rep = Report::new(
         "sql_ddl",
@@ -511,7 +550,7 @@ pub fn run(ctx: &Ctx) -> Report {
          ALTER TABLE ADD COLUMN (with / without DEFAULT) / DROP COLUMN (last, middle, PRIMARY KEY, indexed) / RENAME COLUMN with INSERT (full row and \
          column-list subsets that use defaults), UPDATE, DELETE and close+reopen at random points; after every step every table's column names \
          (SELECT * header) and full dump are compared with the Lean relational model, dropped tables must be unreadable; a systematic layer runs one \
-         mini-history per operation and variant (operation, DML on the new schema, reopen, more DML, reopen). A history stops at its first difference. \
+         mini-history per operation and variant (operation, DML on the new schema, reopen, more DML, reopen). A history stops at its first difference. Big-table scenario: DROP COLUMN on 10 050 rows (more than one migration batch), rows verified before and after a reopen. \
          evaluations = table verifications",
     );
     let mut model = Model::spawn(&ctx.model_bin, "sqlidx");
@@ -541,6 +580,7 @@ pub fn run(ctx: &Ctx) -> Report {
         else if f.len() >= 2 && f[0] == "hist" { if let Ok(seed) = f[1].parse::<u64>() { run_history(ctx, &mut model, &mut rep, seed, 30); } }
     }
     for (o, v) in FOCUS { run_focus(ctx, &mut model, &mut rep, o, v); }
+    big_table_alter_scenario(ctx, &mut rep);
     let mut rng = Rng::new(ctx.seed);
     let n = if ctx.thorough { 400 } else { 40 };
     for _ in 0..n { let seed = rng.next() >> 1; run_history(ctx, &mut model, &mut rep, seed, 30); }
